@@ -128,15 +128,15 @@ mut("e9m-rect-move", ["C12"], "geometry/rect.go",
 mut("e11-north-pole-clamp", ["C14"], "geo/geo.go",
     "\tif maxLat > math.Pi/2 {\n\t\tminLon = -math.Pi\n\t\tmaxLat = math.Pi / 2\n\t\tmaxLon = math.Pi\n\t}",
     "\tif maxLat > math.Pi/2 {\n\t\tminLon = -math.Pi\n\t\tmaxLon = math.Pi\n\t}",
-    "E11.clamp", note="north-pole latitude clamp removed", sentinel=True)
+    "E14", note="north-pole latitude clamp removed", sentinel=True)
 mut("e11-pole-no-widen", ["C14"], "geo/geo.go",
     "\tif minLat < -math.Pi/2 {\n\t\tminLat = -math.Pi / 2\n\t\tminLon = -math.Pi\n\t\tmaxLon = math.Pi\n\t}",
     "\tif minLat < -math.Pi/2 {\n\t\tminLat = -math.Pi / 2\n\t}",
-    "E11.widen", note="south-pole branch no longer widens the longitudes")
+    "E14", note="south-pole branch no longer widens the longitudes")
 mut("e11-wrap-one-sided", ["C14"], "geo/geo.go",
     "\tif minLon < -math.Pi || maxLon > math.Pi {",
     "\tif minLon < -math.Pi {",
-    "E11.clamp", note="east wrap-around not clamped")
+    "E14", note="east wrap-around not clamped")
 mut("e12-containssegment-or", ["C19"], "geometry/segment.go",
     "\treturn seg.Raycast(other.A).On && seg.Raycast(other.B).On",
     "\treturn seg.Raycast(other.A).On || seg.Raycast(other.B).On",
